@@ -1,6 +1,7 @@
 //! xv — conformance harness binding the TLA+ specification in /verif/spec to the real xot crate.
 //! Sub-commands write / read ndjson; TLC is the judge of every event (see /verif/DESIGN.md).
 mod forest;
+mod intern;
 mod observe;
 mod proj;
 mod ser;
@@ -252,6 +253,16 @@ fn main() {
         "observe" => observe_cmd(&args[2..]),
         "parse" => jobs_cmd(&args[2..], text::parse_job),
         "ser" => jobs_cmd(&args[2..], ser::ser_job),
+        "intern-drive" => {
+            let a = &args[2..];
+            intern::intern_drive(
+                arg(a, "--seed", "1").parse().unwrap(),
+                arg(a, "--episodes", "50").parse().unwrap(),
+                arg(a, "--len", "80").parse().unwrap(),
+                arg(a, "--big", "0").parse().unwrap(),
+                &arg(a, "--out", "/dev/stdout"),
+            )
+        }
         other => {
             eprintln!("unknown sub-command {other}");
             std::process::exit(2);
